@@ -44,7 +44,7 @@ func (c *Ctx) Err() error {
 	if err := c.inner.Err(); err != nil {
 		return err // stable: independent of every other operation
 	}
-	vsched.Yield("ctx.Err")
+	vsched.YieldSkip("ctx.Err", 1)
 	return c.inner.Err()
 }
 
@@ -54,7 +54,7 @@ func WithCancel(parent Context) (Context, CancelFunc) {
 	inner, cancel := context.WithCancel(parent)
 	return wrap(inner), func() {
 		if inner.Err() == nil {
-			vsched.Yield("cancel")
+			vsched.YieldSkip("cancel", 1)
 		}
 		cancel()
 	}
@@ -64,7 +64,7 @@ func WithCancelCause(parent Context) (Context, CancelCauseFunc) {
 	inner, cancel := context.WithCancelCause(parent)
 	return wrap(inner), func(cause error) {
 		if inner.Err() == nil {
-			vsched.Yield("cancel")
+			vsched.YieldSkip("cancel", 1)
 		}
 		cancel(cause)
 	}
@@ -77,7 +77,7 @@ func WithDeadline(parent Context, d time.Time) (Context, CancelFunc) {
 	}
 	return wrap(inner), func() {
 		if inner.Err() == nil {
-			vsched.Yield("cancel")
+			vsched.YieldSkip("cancel", 1)
 		}
 		cancel()
 	}
@@ -94,7 +94,7 @@ func WithDeadlineCause(parent Context, d time.Time, cause error) (Context, Cance
 	}
 	return wrap(inner), func() {
 		if inner.Err() == nil {
-			vsched.Yield("cancel")
+			vsched.YieldSkip("cancel", 1)
 		}
 		cancel()
 	}
